@@ -608,6 +608,15 @@ func pureCone(c *Check, fi *FuncInfo) (bool, string, token.Pos) {
 			for _, ins := range b.Instrs {
 				for _, op := range ins.Operands(nil) {
 					if g, ok := (*op).(*ssa.Global); ok && g.Pkg != nil && strings.HasPrefix(g.Pkg.Pkg.Path(), modPath) {
+						// a synchronised container or counter (sync.Map, sync.Mutex, atomic.*) is mutable state by its nature: a
+						// cache in front of a normaliser makes its answer depend on what was asked before
+						if pt, isPtr := g.Type().(*types.Pointer); isPtr {
+							if nt := namedOf(pt.Elem()); nt != nil && nt.Obj().Pkg() != nil && (nt.Obj().Pkg().Path() == "sync" || nt.Obj().Pkg().Path() == "sync/atomic") {
+								bad = "uses the package-level " + nt.Obj().Pkg().Name() + "." + nt.Obj().Name() + " " + g.Name() + " (mutable state shared by all callers: the result can depend on earlier calls)"
+								badPos = ins.Pos()
+								return
+							}
+						}
 						// a maddy global: allowed only if never stored outside init
 						if globalStoredOutsideInit(p, g) {
 							bad = "reads package-level variable " + g.Name() + " which is assigned outside init"
